@@ -7,6 +7,12 @@ attributes) *and* its rendering through the real `Text.render` with styles in th
 
 Direct evaluation (DESIGN 3d): the four statements of the property evaluated on rich's own output with oracles
 that look neither at the Lean model nor at rich's span bookkeeping (see `evaluate_wrap`, `evaluate_divide_line`).
+
+Histories (`history_case`): the model is a pure function (`wrap_history_pure`); that the real `Text.wrap` is one too -
+it does not touch its receiver, and the Lines it returns share nothing with the receiver, with each other or with
+the results of other calls - is checked by wrapping the SAME Text object several times, asking the model with the
+state recorded before the first call, and re-observing the receiver and every earlier result after every call and
+after editing a returned line.
 """
 import itertools
 import os
@@ -403,7 +409,7 @@ def run(ctx):
 
     # ---- 2. Text.wrap: small scope, sampled by seed
     small = list(all_strings(ALPHA, 4))
-    n2 = 36000 if quick else 300000
+    n2 = 24000 if quick else 300000
     for k in range(n2):
         r = rng.random()
         if r < 0.35:
@@ -459,7 +465,7 @@ def run(ctx):
     ctx.flush()
 
     # ---- 4b. histories: one Text object wrapped several times (wrap must not touch its receiver; results independent)
-    n4b = 3500 if quick else 60000
+    n4b = 3000 if quick else 60000
     for k in range(n4b):
         r = rng.random()
         if r < 0.5:
@@ -489,7 +495,7 @@ def run(ctx):
     ctx.flush()
 
     # ---- 5. Lines.justify and get_style_at_offset on their own (lines that wrap itself never produces included)
-    n5 = 8000 if quick else 120000
+    n5 = 6000 if quick else 120000
     jalpha = ["a", "b", " ", " ", "あ", "̀", "　"]
     for k in range(n5):
         specs = [gen_spec(rng, gen_string(rng, 8, jalpha), attrs=False) for _ in range(rng.choice([1, 2, 2, 3]))]
@@ -556,7 +562,13 @@ MANIFEST = {
         "wrap; negative pad_left in Lines.justify: found here, /repo commit 90b2e96) are carried as variant flags with "
         "machine-checked witnesses (old_wrap_reorders_styles, old_justify_negative_pad).  The model is tied to the real "
         "code on every run by differential execution (complete line state + rendering through the real Text.render) and "
-        "the four statements are evaluated directly on rich's output."
+        "the four statements are evaluated directly on rich's output.  wrap_history_pure: in the model a history of wrap "
+        "calls on one object leaves the object as it was and answers each call as a fresh copy would (by construction: "
+        "the model is a pure function); PURITY OF THE REAL CODE is not a theorem, it is what the history cases check: the "
+        "same Text object is wrapped 2-4 times (same / different width, justify, overflow), the model is asked with the "
+        "state recorded before the first call, and after every call and after editing a returned line (pad, crop, "
+        "stylize, append) the receiver (plain, _length, spans, attributes, rendering) and every earlier returned line "
+        "are re-observed and must be unchanged."
     ),
     "note": (
         "partial: (1) because Text.expand_tabs re-applies the base style and Text('').join puts the null style in front, "
